@@ -92,6 +92,15 @@ pub fn gen_load(a: &Args, out: &mut Out, run0: u64, nruns: u64) {
                 m.set_mems(out, &p);
                 for a in [0xFE04u16, 0xFFFC, 0xFFFE, 0xFE00] { if chance(&mut rng, 50) { m.read_mem(out, a, MemAccessCtx::omnipotent()); } }
             }
+            // words of the file's own blocks that execution (or the host) left partially initialized: a reserved word
+            // becomes uninitialized whatever it held
+            if chance(&mut rng, 50) {
+                let spots: Vec<u16> = obj.verif_block_iter().flat_map(|(s, ws)| (0..ws.len() as u16).map(move |k| s.wrapping_add(k))).collect();
+                if !spots.is_empty() {
+                    let p: Vec<(u16, Word)> = (0..4).map(|_| (spots[rng.random_range(0..spots.len())], word(rng.random(), pick(&mut rng, &[0xFF00u16, 0x00FF, 0x8000, 0xFFFE])))).collect();
+                    m.set_mems(out, &p);
+                }
+            }
             m.load(out, &obj);
             if j == 0 && chance(&mut rng, 50) {
                 // execute a little between loads
@@ -134,6 +143,8 @@ pub fn gen_reset(a: &Args, out: &mut Out, run0: u64, nruns: u64) {
             if chance(&mut rng, 30) { m.add_breakpoint_pc(out, 0x3002); }
             for _ in 0..rng.random_range(0..40) { let r = m.step(out, false, false); if r == "panic" { break; } }
             if chance(&mut rng, 30) { m.set_mcr(out, true); }
+            // the strategy itself is a flag: a reset after a change builds the machine of the new strategy
+            if k % 2 == 0 && chance(&mut rng, 35) { let q = rng.random_range(1..=4usize); m.set_init(out, q); }
             m.reset(out);
             // probe the kept configuration after reset
             m.read_mem(out, 0xFE40, MemAccessCtx::omnipotent());
@@ -628,7 +639,7 @@ pub fn replay_load(a: &Args, out: &mut Out) {
     for line in hist.lines() {
         if line.trim().is_empty() { continue; }
         let h: Vec<i64> = serde_json::from_str(line).expect("history");
-        let (pre, nb) = (h[0] == 1, h[1] as usize);
+        let (pre, pmask, nb) = (h[0] >= 1, if h[0] == 2 { 0xFF00u16 } else { 0xFFFF }, h[1] as usize);
         let mut blocks: Vec<(u16, Vec<i64>)> = vec![];
         let mut i = 2;
         for _ in 0..nb { let (s, n) = (h[i] as u16, h[i + 1] as usize); blocks.push((s, h[i + 2..i + 2 + n].to_vec())); i += 2 + n; }
@@ -645,8 +656,8 @@ pub fn replay_load(a: &Args, out: &mut Out) {
         if pre {
             let mut pokes: Vec<(u16, Word)> = vec![];
             for (s, ws) in &blocks {
-                if *s > 0 { pokes.push((*s - 1, word(0x1111, 0xFFFF))); }
-                for k in 0..=ws.len() as u32 { let a = *s as u32 + k; if a <= 0xFFFF { pokes.push((a as u16, word(0x1111, 0xFFFF))); } }
+                if *s > 0 { pokes.push((*s - 1, word(0x1111, pmask))); }
+                for k in 0..=ws.len() as u32 { let a = *s as u32 + k; if a <= 0xFFFF { pokes.push((a as u16, word(0x1111, pmask))); } }
             }
             m.set_mems(out, &pokes);
         }
